@@ -23,7 +23,7 @@ def builds_needed(tier):
 # Own corpus re-run on other builds of the crate (mc/core.py: extra builds). Every observation is compared with the same model.
 def extra_builds(tier):
     # the helpers are plain integer code today, but a cfg(target_feature) fast path is exactly the kind of change that would break them
-    return [("relchk", None), ("sse41", None), ("native", None)]
+    return [("relchk", None), ("sse41", None), ("native", None), ("fe32", None)]
 
 
 
